@@ -796,7 +796,7 @@ theorem ofInt_natCast (n : Nat) : Dec.ofInt (n : Int) = Dec.ofNat n := by
 Python ints `M` and `±E` (exact, unbounded) and the value is `multiply(Decimal(M), power(Decimal(10), Decimal(±E)))`. -/
 theorem powerNumberParse_e (p : Nat) (tab : DigitTab) (ht : tab.Ascii) (decSep : Nat) (hsep : decSep ≠ 45)
     (ms : List Nat) (e0 : Nat) (es : List Nat) (neg : Bool) (hm : ∀ d ∈ ms, d < 10) (he : ∀ d ∈ e0 :: es, d < 10) :
-    powerNumberParse p tab decSep (digitChars ms ++ 101 :: ((if neg then [45] else []) ++ digitChars (e0 :: es))) =
+    powerNumberParse false p tab decSep (digitChars ms ++ 101 :: ((if neg then [45] else []) ++ digitChars (e0 :: es))) =
       (decPow p (Dec.ofNat 10) (PyNum.toDec (.int (if neg then -((natOfDigits (e0 :: es) : Nat) : Int)
           else ((natOfDigits (e0 :: es) : Nat) : Int))))).map
         (fun t => Dec.mul p (Dec.ofNat (natOfDigits ms)) t) := by
@@ -815,6 +815,7 @@ theorem powerNumberParse_e (p : Nat) (tab : DigitTab) (ht : tab.Ascii) (decSep :
     · cases neg <;> simp
     · have := b 94 h; omega
   unfold powerNumberParse
+  simp only [Bool.false_eq_true, if_false]
   rw [hup, hc]
   have e0' : ({} : PowSt) = ⟨.int ((0 : Nat) : Int), F64.ofNat 10, false, false, []⟩ := rfl
   rw [e0', powLoop_digits tab ht decSep ms hm _ (by simp)]
@@ -845,5 +846,137 @@ theorem powerNumberParse_e (p : Nat) (tab : DigitTab) (ht : tab.Ascii) (decSep :
   simp only [PyNum.toDec, ofInt_natCast, natOfDigits]
   cases decPow p (Dec.ofNat 10) (Dec.ofInt (if neg = true then -((natOfDigitsFrom 0 (e0 :: es) : Nat) : Int)
       else ((natOfDigitsFrom 0 (e0 :: es) : Nat) : Int))) <;> simp [Except.map, pure, Except.pure]
+
+/-! ### the `X10^` → `E` variant of `_power_number_parse` -/
+
+theorem splitOn_go_none (sep : Str) (x : Nat) (r : Str) (hsep : sep = x :: r) :
+    ∀ (rest cur : Str) (acc : List Str) (fuel : Nat), rest.length < fuel → x ∉ rest →
+      Dec.splitOn.go sep sep.length fuel cur rest acc = ((cur.reverse ++ rest) :: acc).reverse := by
+  intro rest
+  induction rest with
+  | nil =>
+    intro cur acc fuel hf _
+    cases fuel with
+    | zero => simp at hf
+    | succ f => simp [Dec.splitOn.go]
+  | cons c r' ih =>
+    intro cur acc fuel hf hx
+    cases fuel with
+    | zero => simp at hf
+    | succ f =>
+      unfold Dec.splitOn.go
+      have hne : ¬ ((c :: r').take sep.length = sep) := by
+        rw [hsep]
+        simp only [List.length_cons, List.take_succ_cons, List.cons.injEq, not_and]
+        intro h
+        exact absurd h.symm (by intro e; exact hx (by simp [e]))
+      simp only [hne, Bool.and_false, decide_false, Bool.false_eq_true, if_false]
+      rw [ih (c :: cur) acc f (by simp at hf; omega) (fun h => hx (by simp [h]))]
+      simp
+
+theorem splitOn_go_one (sep : Str) (x : Nat) (r : Str) (hsep : sep = x :: r) (B : Str) (hB : x ∉ B) :
+    ∀ (A cur : Str) (acc : List Str) (fuel : Nat), (A ++ sep ++ B).length < fuel → x ∉ A →
+      Dec.splitOn.go sep sep.length fuel cur (A ++ sep ++ B) acc = (B :: (cur.reverse ++ A) :: acc).reverse := by
+  intro A
+  induction A with
+  | nil =>
+    intro cur acc fuel hf _
+    cases fuel with
+    | zero => simp at hf
+    | succ f =>
+      have hlen : 0 < sep.length := by rw [hsep]; simp
+      have hcons : [] ++ sep ++ B = x :: (r ++ B) := by rw [hsep]; simp
+      have htake : (x :: (r ++ B)).take sep.length = sep := by
+        rw [← hcons]; simp
+      have hdrop : (x :: (r ++ B)).drop sep.length = B := by
+        rw [← hcons]; simp
+      rw [hcons]
+      unfold Dec.splitOn.go
+      simp only [htake, hdrop, hlen, decide_true, Bool.and_self, if_true]
+      rw [splitOn_go_none sep x r hsep B [] _ f (by simp at hf; omega) hB]
+      simp
+  | cons a A' ih =>
+    intro cur acc fuel hf hx
+    cases fuel with
+    | zero => simp at hf
+    | succ f =>
+      simp only [List.cons_append]
+      unfold Dec.splitOn.go
+      have hne : ¬ ((a :: (A' ++ sep ++ B)).take sep.length = sep) := by
+        rw [hsep]
+        simp only [List.length_cons, List.take_succ_cons, List.cons.injEq, not_and]
+        intro h
+        exact absurd h.symm (by intro e; exact hx (by simp [e]))
+      simp only [List.append_assoc] at hne ⊢
+      simp only [hne, Bool.and_false, decide_false, Bool.false_eq_true, if_false]
+      have := ih (a :: cur) acc f (by simp at hf ⊢; omega) (fun h => hx (by simp [h]))
+      simp only [List.append_assoc] at this
+      rw [this]
+      simp
+
+/-- `s.replace(sep, new)` leaves a string without the first character of `sep` alone -/
+theorem replaceAll_none (sep new s : Str) (x : Nat) (r : Str) (hsep : sep = x :: r) (hx : x ∉ s) :
+    replaceAll sep new s = s := by
+  unfold replaceAll Dec.splitOn
+  simp only
+  rw [splitOn_go_none sep x r hsep s [] [] (s.length + 1) (by omega) hx]
+  simp [Dec.joinWith]
+
+/-- … and rewrites the one occurrence in `A ++ sep ++ B` -/
+theorem replaceAll_one (sep new A B : Str) (x : Nat) (r : Str) (hsep : sep = x :: r) (hA : x ∉ A) (hB : x ∉ B) :
+    replaceAll sep new (A ++ sep ++ B) = A ++ new ++ B := by
+  unfold replaceAll Dec.splitOn
+  simp only
+  rw [splitOn_go_one sep x r hsep B hB A [] [] ((A ++ sep ++ B).length + 1) (by omega) hA]
+  simp [Dec.joinWith]
+
+theorem upperAscii_no88 (t : Str) (h88 : 88 ∉ t) (h120 : 120 ∉ t) : 88 ∉ upperAscii t := by
+  intro h
+  simp only [upperAscii, List.mem_map] at h
+  obtain ⟨c, hc, he⟩ := h
+  split at he
+  · rename_i hr
+    simp only [Bool.and_eq_true, decide_eq_true_eq] at hr
+    have : c = 120 := by omega
+    exact h120 (this ▸ hc)
+  · exact h88 (he ▸ hc)
+
+theorem upperAscii_contains94 (t : Str) : (upperAscii t).contains 94 = t.contains 94 := by
+  induction t with
+  | nil => rfl
+  | cons c r ih =>
+    simp only [upperAscii, List.map_cons, List.contains_cons] at ih ⊢
+    rw [ih]
+    congr 1
+    split
+    · rename_i hr
+      simp only [Bool.and_eq_true, decide_eq_true_eq] at hr
+      have h1 : (94 == c - 32) = false := by simp; omega
+      have h2 : (94 == c) = false := by simp; omega
+      rw [h1, h2]
+    · rfl
+
+/-- on a text without `x` / `X` the two variants of `_power_number_parse` coincide -/
+theorem powerNumberParse_fx_noX (p : Nat) (tab : DigitTab) (decSep : Nat) (t : Str) (h88 : 88 ∉ t) (h120 : 120 ∉ t) :
+    powerNumberParse true p tab decSep t = powerNumberParse false p tab decSep t := by
+  unfold powerNumberParse
+  simp only [if_true, Bool.false_eq_true, if_false]
+  rw [replaceAll_none x10Caret [69] (upperAscii t) 88 [49, 48, 94] rfl (upperAscii_no88 t h88 h120), upperAscii_contains94]
+
+/-- **the repaired variant reads `A x10^ B` as `A e B`** (no other `x` / `X` in the text) -/
+theorem powerNumberParse_x10 (p : Nat) (tab : DigitTab) (decSep : Nat) (A B : Str)
+    (hA : 88 ∉ A ∧ 120 ∉ A) (hB : 88 ∉ B ∧ 120 ∉ B) :
+    powerNumberParse true p tab decSep (A ++ [120, 49, 48, 94] ++ B) = powerNumberParse true p tab decSep (A ++ 101 :: B) := by
+  have hu1 : upperAscii (A ++ [120, 49, 48, 94] ++ B) = upperAscii A ++ x10Caret ++ upperAscii B := by
+    simp [upperAscii, x10Caret]
+  have hu2 : upperAscii (A ++ 101 :: B) = upperAscii A ++ [69] ++ upperAscii B := by
+    simp [upperAscii]
+  have nA := upperAscii_no88 A hA.1 hA.2
+  have nB := upperAscii_no88 B hB.1 hB.2
+  unfold powerNumberParse
+  simp only [if_true]
+  rw [hu1, hu2, replaceAll_one x10Caret [69] _ _ 88 [49, 48, 94] rfl nA nB,
+    replaceAll_none x10Caret [69] (upperAscii A ++ [69] ++ upperAscii B) 88 [49, 48, 94] rfl
+      (by simp only [List.mem_append, List.mem_singleton, not_or]; exact ⟨⟨nA, by decide⟩, nB⟩)]
 
 end RTV.NumFrac
